@@ -335,6 +335,23 @@ func (c *Ctx) ParseCorrSuite(qLen, sLen, mutations, randoms int) {
 			c.Ev.Count(g.grammar+"-mutation/"+obsClass(o), 1)
 		}
 	}
+	// nesting families (recursion depth): unbalanced and balanced, with and without limits
+	var nest [][]byte
+	for _, n := range []int{1, 2, 5, 20, 100, 400} {
+		rep := strings.Repeat
+		for _, d := range []string{
+			"{a(x:" + rep("[", n), "{a(x:" + rep("[", n) + "1" + rep("]", n) + ")}", "{a(x:" + rep("{a:", n) + "1" + rep("}", n) + ")}",
+			rep("{a", n), rep("{a", n) + rep("}", n), "query(" + rep("$a:[", n), "query($a:" + rep("[", n) + "Int" + rep("]", n) + "){a}",
+			"{a" + rep("@a(a:[", n), rep("...{", n) + "a" + rep("}", n), rep("#c\n", n) + "{a}", "{" + rep(" a", n) + "}",
+			"type T{a:" + rep("[", n) + "Int" + rep("]!", n) + "}", "type T{a(b:Int=" + rep("[", n) + rep("]", n) + "):Int}",
+			"type T implements " + rep("A&", n) + "B{a:Int}", "union U=" + rep("A|", n) + "B", "directive @d on " + rep("FIELD|", n) + "QUERY",
+			"type T" + rep("@a", n) + "{a:Int}",
+		} {
+			nest = append(nest, []byte(d))
+		}
+	}
+	c.CorrParse("query", nest, []int{-1, 7, 150})
+	c.CorrParse("schema", nest, []int{-1, 7, 150})
 	// (d) random byte strings
 	var rnd [][]byte
 	for i := 0; i < randoms; i++ {
